@@ -445,6 +445,11 @@ func (s *streamGRPC) RecvMsg(m interface{}) error {
 		buf.Reset()
 		if err := s.decompress(buf, b); err != nil {
 			bufPool.Put(buf)
+			if err == io.EOF {
+				// An empty payload marked as compressed: not the end
+				// of the stream.
+				err = io.ErrUnexpectedEOF
+			}
 			return err
 		}
 		// The limit applies to the message, not only to its compressed frame.
